@@ -238,7 +238,8 @@ P_C10 == /\ Quiescent => \A qi \in 1..QLen : ~(obs[qi].k = "nt" /\ obs[qi].e = "
          \* back / back11: after an occurrence was handled the next thing the machine processes is the completion event
          /\ (Quiescent /\ IsB) => \A qi \in 1..QLen :
                (obs[qi].k = "peiend" /\ HasBit(obs[qi].x, 1) /\ HasCompl(obs[qi].m)) =>
-                   LET qn == { qj \in (qi+1)..QLen : obs[qj].k = "pei" /\ obs[qj].m = obs[qi].m /\ obs[qj].i = obs[qi].i } IN
+                   \* ("blk": the machine is blocked by a terminate / interrupt state and swallows the occurrence it is offered, C11)
+                   LET qn == { qj \in (qi+1)..QLen : obs[qj].k \in {"pei", "blk"} /\ obs[qj].m = obs[qi].m /\ obs[qj].i = obs[qi].i } IN
                    qn # {} => obs[CHOOSE qj \in qn : \A qk \in qn : qj <= qk].e = "none"
          \* back / back11, entry form: once a state with completion rows has been entered, the next occurrence its machine processes
          \* is the completion event.  Known finding F8: when the state is entered as part of the entry of its submachine, the
@@ -246,8 +247,8 @@ P_C10 == /\ Quiescent => \A qi \in 1..QLen : ~(obs[qi].k = "nt" /\ obs[qi].e = "
          \* the entry) are processed first; only that pattern is excused.
          /\ (Quiescent /\ IsB) => \A qi \in 1..QLen :
                (obs[qi].k = "en" /\ obs[qi].id \in StatesOf(obs[qi].m) /\ ~IsSub(obs[qi].m, obs[qi].id) /\ StateHasCompl(obs[qi].m, obs[qi].id)
-                  /\ ~sawexc[obs[qi].i] /\ ~HasBlocking(obs[qi].m)) =>
-                   LET qn == { qj \in (qi+1)..QLen : obs[qj].k = "pei" /\ obs[qj].m = obs[qi].m /\ obs[qj].i = obs[qi].i }
+                  /\ ~sawexc[obs[qi].i]) =>
+                   LET qn == { qj \in (qi+1)..QLen : obs[qj].k \in {"pei", "blk"} /\ obs[qj].m = obs[qi].m /\ obs[qj].i = obs[qi].i }
                        qexcF8 == obs[qi].m # Def.root /\ \E qj \in 1..(qi-1) :
                                      /\ obs[qj].k = "en" /\ obs[qj].id = obs[qi].m /\ obs[qj].i = obs[qi].i
                                      /\ ~\E qk \in (qj+1)..(qi-1) : obs[qk].k = "pei" /\ obs[qk].m = obs[qi].m
